@@ -78,6 +78,24 @@ pub fn generate(tier: &str, rng: &mut Prng) -> Vec<Case> {
                 }
             }
         }
+        // transform-domain vectors made of blocks of q-1 and blocks of 0 (block sizes 1, 2, 4, ...): the largest residues
+        // side by side is where an inverse transform that delays its reductions overflows; judged by the convolution
+        // theorem read from the transform side: intt(v .* w) = intt(v) * intt(w)
+        if n >= 2 {
+            let mut bsz = 1usize;
+            while bsz < n {
+                for phase in 0..2usize {
+                    let v: Vec<u64> = (0..n).map(|i| if (i / bsz) % 2 == phase { Q - 1 } else { 0 }).collect();
+                    let w: Vec<u64> = if phase == 0 { (0..n).map(|_| Q - 1).collect() } else { rand_vec(rng, n) };
+                    ops.push(Case::new(format!("intt_conv {} {}", ints(&v), ints(&w))));
+                }
+                // one block of q-1 at the start, the rest zero
+                let v: Vec<u64> = (0..n).map(|i| if i < bsz { Q - 1 } else { 0 }).collect();
+                let w: Vec<u64> = (0..n).map(|_| Q - 1).collect();
+                ops.push(Case::new(format!("intt_conv {} {}", ints(&v), ints(&w))));
+                bsz *= 2;
+            }
+        }
         // X^i * X^j wraps with a sign
         for _ in 0..6 {
             let (i, j) = (rng.below(n as u64) as usize, rng.below(n as u64) as usize);
@@ -115,6 +133,22 @@ pub fn oracle(op: &[&str], out: &str) -> Verdict {
                 Verdict::Pass
             } else {
                 Verdict::Fail(format!("intt(ntt(a) .* ntt(b)) differs from the schoolbook negacyclic product, n = {}", a.len()))
+            }
+        }
+        "intt_conv" => {
+            if out.starts_with("PANIC") {
+                return Verdict::Fail(format!("inverse transform panicked: {out}"));
+            }
+            let p: Vec<&str> = out.split(' ').collect();
+            if p.len() != 3 {
+                return Verdict::Fail(format!("inverse transform failed: {out}"));
+            }
+            let a: Vec<u64> = parse_ints(p[1]);
+            let b: Vec<u64> = parse_ints(p[2]);
+            if p[0] == ints(&schoolbook(&a, &b)) {
+                Verdict::Pass
+            } else {
+                Verdict::Fail(format!("intt(v .* w) differs from the negacyclic product of intt(v) and intt(w), n = {}", a.len()))
             }
         }
         _ => Verdict::NotApplicable,
